@@ -555,6 +555,12 @@ func (f *Frame) builtin(b *ssa.Builtin, c *ssa.CallCommon, instr ssa.Value, st *
 			h, mv := g.sorts.mapHeap(v.Sort)
 			t := g.def(f.name(instr), "Int", fmt.Sprintf("(ite (= %s 0) 0 (mcnt_%s (select %s %s)))", v.Term, mv, g.heapGet(st, h), v.Term))
 			g.assume(fmt.Sprintf("(>= %s 0)", t))
+			if mt, ok := c.Args[0].Type().Underlying().(*types.Map); ok {
+				// a map that exists holds every key and value in memory: its count is bounded by the address space
+				if es := gcSizes.Sizeof(mt.Key()) + gcSizes.Sizeof(mt.Elem()); es > 0 {
+					g.assume(fmt.Sprintf("(<= (* %d %s) %s)", es, t, maxAllocBytes))
+				}
+			}
 			return Val{Sort: "Int", Term: t, GoT: instr.Type()}
 		case v.Sort == "Coins":
 			return Val{Sort: "Int", Term: g.def(f.name(instr), "Int", fmt.Sprintf("(Coins_len %s)", v.Term)), GoT: instr.Type()}
